@@ -13,16 +13,17 @@ class ChanSpec(diffprop.Spec):
     budgets = dict(quick=(60, 12, 6, 2, 400), thorough=(1500, 40, 60, 3, 4000))
     counts = dict(quick=1, thorough=1)
     escalate_factor = 2
+    harness_timeout = dict(quick=240, thorough=3000)
 
     def harness(self, seed, count, tier):
         n, scheds, ndfs, bound, cap = self.budgets[tier]
         n, ndfs = n * count, ndfs * count
         lines = []
-        rc, so, se = core.run([os.path.join(core.BIN, "nvhc"), "-prop", self.id, "-seed", str(seed), "-count", str(n), "-scheds", str(scheds)], timeout=3000)
+        rc, so, se = core.run([os.path.join(core.BIN, "nvhc"), "-prop", self.id, "-seed", str(seed), "-count", str(n), "-scheds", str(scheds)], timeout=self.harness_timeout[tier])
         lines += [l for l in so.split("\n") if l]
         if rc != 0:
             lines.append("%s crash harness-exit-%d %s" % (self.id, rc, se[-300:].replace("\n", " ")))
-        rc, so, se = core.run([os.path.join(core.BIN, "nvhc"), "-prop", self.id, "-seed", str(seed + 7), "-count", str(ndfs), "-dfs", str(bound), "-dfscap", str(cap)], timeout=3000)
+        rc, so, se = core.run([os.path.join(core.BIN, "nvhc"), "-prop", self.id, "-seed", str(seed + 7), "-count", str(ndfs), "-dfs", str(bound), "-dfscap", str(cap)], timeout=self.harness_timeout[tier])
         lines += [l for l in so.split("\n") if l]
         if rc != 0:
             lines.append("%s crash harness-exit-%d %s" % (self.id, rc, se[-300:].replace("\n", " ")))
